@@ -97,6 +97,80 @@ func c08EvilPanics(r *Result) {
 	}
 }
 
+type panickyReasonErr struct{}
+
+func (panickyReasonErr) Error() string           { return "reason unavailable" }
+func (panickyReasonErr) ResultReason() kmip.Enum { panic("broken ResultReason method") }
+
+// c08EvilErrors: "nothing a handler returns ... terminates the process" - the ERROR a handler returns is the application's too.
+// Handlers return (not panic with) errors that are hostile to whoever asks them for their text or reason: the classic typed
+// nil pointer (`var e *MyErr; return nil, e`), a pointer error with a nil field, an error whose Error method panics, a struct
+// embedding a nil error, a kmip.Error whose ResultReason method panics; and a handler that panics with nil (which recover()
+// reports as nil under the language version the library declares). Each is that item's Operation Failed / General Failure;
+// the neighbours keep their outcomes, the response is sent, the process survives.
+func c08EvilErrors(r *Result) {
+	var typedNil *nilDerefErr
+	cases := []struct {
+		name string
+		h    kmip.Handler
+	}{
+		{"handler returns a typed nil pointer as its error", func(*kmip.RequestContext, *kmip.RequestBatchItem) (interface{}, error) { return nil, typedNil }},
+		{"handler returns a pointer error with a nil field", func(*kmip.RequestContext, *kmip.RequestBatchItem) (interface{}, error) { return nil, &nilDerefErr{} }},
+		{"handler returns an error whose Error method panics", func(*kmip.RequestContext, *kmip.RequestBatchItem) (interface{}, error) { return nil, panickyErr{} }},
+		{"handler returns a struct embedding a nil error", func(*kmip.RequestContext, *kmip.RequestBatchItem) (interface{}, error) { return nil, embeddedNilErr{} }},
+		{"handler returns a kmip.Error whose ResultReason method panics", func(*kmip.RequestContext, *kmip.RequestBatchItem) (interface{}, error) { return nil, panickyReasonErr{} }},
+		{"handler panics with nil (GODEBUG panicnil=1, the meaning under the library's declared go 1.16)", func(*kmip.RequestContext, *kmip.RequestBatchItem) (interface{}, error) { panic(nil) }},
+	}
+	for _, c := range cases {
+		key := c.name
+		crumb("C08 scenario, batch [Activate ok, Destroy: " + key + ", Activate ok]")
+		r.eval(key, true)
+		s := &kmip.Server{}
+		s.Handle(kmip.OPERATION_ACTIVATE, func(ctx *kmip.RequestContext, item *kmip.RequestBatchItem) (interface{}, error) {
+			return kmip.ActivateResponse{UniqueIdentifier: "ok"}, nil
+		})
+		s.Handle(kmip.OPERATION_DESTROY, c.h)
+		sc, cc := rec.Pipe()
+		rc := rec.NewConn(sc, 1)
+		l := rec.NewListener()
+		l.Push(rec.AcceptStep{Conn: rc})
+		init := make(chan struct{})
+		ret := make(chan error, 1)
+		go func() { ret <- s.Serve(l, init) }()
+		<-init
+		_ = cc.SetDeadline(time.Now().Add(3 * time.Second))
+		req := kmip.Request{Header: kmip.RequestHeader{Version: kmip.ProtocolVersion{Major: 1, Minor: 4}, BatchCount: 3},
+			BatchItems: []kmip.RequestBatchItem{
+				{Operation: kmip.OPERATION_ACTIVATE, UniqueID: []byte{1}, RequestPayload: kmip.ActivateRequest{UniqueIdentifier: "a"}},
+				{Operation: kmip.OPERATION_DESTROY, UniqueID: []byte{2}, RequestPayload: kmip.DestroyRequest{UniqueIdentifier: "b"}},
+				{Operation: kmip.OPERATION_ACTIVATE, UniqueID: []byte{3}, RequestPayload: kmip.ActivateRequest{UniqueIdentifier: "c"}},
+			}}
+		var resp kmip.Response
+		err := kmip.NewEncoder(cc).Encode(&req)
+		if err == nil {
+			err = kmip.NewDecoder(cc).Decode(&resp)
+		}
+		obs := "no response: " + fmt.Sprint(err)
+		if err == nil {
+			obs = ""
+			for _, it := range resp.BatchItems {
+				obs += fmt.Sprintf("[op=%d id=%x status=%d reason=%d payload=%v] ", uint32(it.Operation), it.UniqueID, uint32(it.ResultStatus), uint32(it.ResultReason), it.ResponsePayload != nil)
+			}
+		}
+		want := fmt.Sprintf("[op=%d id=01 status=0 reason=0 payload=true] [op=%d id=02 status=1 reason=%d payload=false] [op=%d id=03 status=0 reason=0 payload=true] ",
+			uint32(kmip.OPERATION_ACTIVATE), uint32(kmip.OPERATION_DESTROY), uint32(kmip.RESULT_REASON_GENERAL_FAILURE), uint32(kmip.OPERATION_ACTIVATE))
+		if obs != want {
+			r.find(Finding{Kind: "violation", What: "a hostile error returned by a handler (or a panic with nil) was not reported as that item's Operation Failed / General Failure and nothing else", Input: key, Expect: want, Actual: obs})
+		}
+		cc.Close()
+		ctx, cancel := context.WithTimeout(context.Background(), 5*time.Second)
+		_ = s.Shutdown(ctx)
+		cancel()
+		<-ret
+		r.Stats["evil-error-scenarios"]++
+	}
+}
+
 // c08ValueWithError: handlers that return BOTH a first result and an error - a half-filled response, a typed nil pointer, a
 // value that cannot be encoded, a pointer to a response. C08: an item whose handler returned an error is Operation Failed with
 // the error's message and reason and nothing else; whatever came back beside the error is not a payload, cannot make the
